@@ -47,3 +47,16 @@ def fileRun (a b : Nat) : List Nat → List FOut
     | _ => o :: fileRun st.1 st.2 rest
 
 end HS
+
+namespace HS
+
+/-- What `fstat` says the opened object is. -/
+inductive FileKind where
+  | regular | directory | charDevice | fifo | other
+  deriving Repr, DecidableEq
+
+/-- `ChunkedReadFile::new_with_metadata`: `true` = constructed, `false` = refused
+(`"expected a file"`): `metadata.is_file()`. -/
+def newWithMetadata (k : FileKind) : Bool := k == .regular
+
+end HS
